@@ -9,8 +9,13 @@
      C15 B <path> <block> v<k>/<n>        => <block> b h v<k>/<n>       (path: marshal badger tcp mem)
      C15 F <path> <frame>                 => <frame> h | HANG0 | HANG1 | ERR
      C15 C <frame> | <frame>              => same<b> | HANG
+     C15 R <path> <store> | L<k> (str(hash) fevent)*k => (cid opcid spi opi topo round lamport)*k | ERR
+                                          Hashgraph.Reset: InsertFrameEvent of the frame events in order
+     C15 T itx|event|frame <object>       => ok | bad       text validation (only printed when /repo has it)
+   W read / D / I inputs end with v<0|1>: Verify() of the original object.
    Atoms: string atom h<n> is the two code points [48; 1000000+n] (sorts like the "0X.." strings it stands
-   for, as long as no literal map key starts with '0'); bytes atom k<n> is [1000+n]. *)
+   for, as long as no literal map key starts with '0'); signature atom g<n> is the string "1|<n>" (a string
+   keys.DecodeSignature accepts, like the real signature it stands for); bytes atom k<n> is [1000+n]. *)
 open Zutil
 module W = Wire
 
@@ -28,6 +33,7 @@ let p_str s =
   let t = next s in
   match Stdlib.String.get t 0 with
   | 'h' -> [zi 48; zi (1000000 + int_of_string (tail t))]
+  | 'g' -> zi 49 :: zi 124 :: Stdlib.List.map (fun c -> zi (Char.code c)) (Stdlib.List.of_seq (Stdlib.String.to_seq (tail t)))
   | 's' -> if Stdlib.String.length t = 1 then []
     else Stdlib.List.map z_of_string (Stdlib.String.split_on_char '.' (tail t))
   | _ -> failwith ("C15: bad string token " ^ t)
@@ -143,6 +149,9 @@ let o_optint = function None -> tok "-" | Some x -> o_int x
 let o_str (l : BinNums.coq_Z list) =
   match l with
   | [a; b] when int_of_z a = 48 && int_of_z b >= 1000000 -> tok ("h" ^ string_of_int (int_of_z b - 1000000))
+  | a :: b :: ((_ :: _) as r) when int_of_z a = 49 && int_of_z b = 124
+                                  && Stdlib.List.for_all (fun c -> let c = int_of_z c in c >= 48 && c <= 57) r ->
+    tok ("g" ^ Stdlib.String.concat "" (Stdlib.List.map (fun c -> Stdlib.String.make 1 (Char.chr (int_of_z c))) r))
   | _ -> tok ("s" ^ Stdlib.String.concat "." (Stdlib.List.map string_of_z l))
 let o_bytes = function
   | None -> tok "n"
@@ -233,12 +242,13 @@ let handle check diff (toks : string list) (raw : string) : bool =
               let path = next s in
               let st = p_store s in expect s "|";
               let e = p_event s in
+              let vb = (next s = "v1") in
               (match W.wire_rt (path <> "mem") st e with
                | None -> "DECODE-ERROR"
                | Some (Datatypes.Coq_inl er) -> "ERR " ^ err_str er
                | Some (Datatypes.Coq_inr e') ->
                  result (fun () -> o_event e'; tok ("h" ^ bit (W.same_event_hash e e'));
-                          tok ("v" ^ bit (W.verify_preserved e e'))))
+                          tok ("v" ^ bit (vb && W.verify_preserved e e'))))
             | "readw" ->
               let path = next s in
               let st = p_store s in expect s "|";
@@ -254,18 +264,20 @@ let handle check diff (toks : string list) (raw : string) : bool =
          | "D" ->
            let _path = next s in
            let e = p_event s in
+           let vb = (next s = "v1") in
            (match W.db_rt e with
             | None -> "DECODE-ERROR"
             | Some e' -> result (fun () -> o_event e'; tok ("h" ^ bit (W.same_event_hash e e'));
-                                  tok ("v" ^ bit (W.verify_preserved e e'))))
+                                  tok ("v" ^ bit (vb && W.verify_preserved e e'))))
          | "I" ->
            let _path = next s in
            let t = p_itx s in
+           let vb = (next s = "v1") in
            (match W.json_rt_itx t with
             | None -> "DECODE-ERROR"
             | Some t' ->
               let h = W.same_itx_hash t t' in
-              result (fun () -> o_itx t'; tok ("h" ^ bit h); tok ("v" ^ bit (h && t.W.it_sig = t'.W.it_sig))))
+              result (fun () -> o_itx t'; tok ("h" ^ bit h); tok ("v" ^ bit (vb && h && t.W.it_sig = t'.W.it_sig))))
          | "B" ->
            let path = next s in
            let b = p_block s in
@@ -302,6 +314,31 @@ let handle check diff (toks : string list) (raw : string) : bool =
            (match W.same_frame_hash f g with
             | None -> "HANG"
             | Some h -> "same" ^ bit h)
+         | "R" ->
+           let _path = next s in
+           let st = p_store s in expect s "|";
+           let l = (match p_list (fun s -> let h = p_str s in
+                                   match p_feventptr s with
+                                   | Some fe -> (match fe.W.fe_core with
+                                       | Some e -> (h, (fe, e))
+                                       | None -> failwith "C15 R: frame event without core")
+                                   | None -> failwith "C15 R: nil frame event") s with
+                    | Some l -> l | None -> []) in
+           (match W.insert_frame_events st (zi 0) l with
+            | None -> "ERR"
+            | Some ((_, _), outl) ->
+              result (fun () ->
+                  Stdlib.List.iter (fun ((e : W.event), _) ->
+                      let b = e.W.e_body in
+                      o_int b.W.b_cid; o_int b.W.b_opcid; o_int b.W.b_spi; o_int b.W.b_opi;
+                      o_int e.W.e_topo; o_optint e.W.e_round; o_optint e.W.e_lamport) outl))
+         | "T" ->
+           let ok b = if b then "ok" else "bad" in
+           (match next s with
+            | "itx" -> ok (W.itx_text_ok (p_itx s))
+            | "event" -> ok (W.event_text_ok (p_event s))
+            | "frame" -> ok (W.frame_text_ok (p_frame s))
+            | k -> failwith ("C15 T: unknown kind " ^ k))
          | k -> failwith ("C15: unknown kind " ^ k))
       with Failure m -> "RUNNER-FAILURE " ^ m
     in
